@@ -228,6 +228,7 @@ def translate(cfg, outdir):
                             ex = [x for x in f.get("inner", []) if x.get("kind") != "FullComment"]
                             if ex:
                                 em.field_inits[(cls, f["name"])] = ex[-1]
+        em.cur_tu = u["tu"]
         sig, text, unit = em.emit_function(node, cname, cls if node["kind"] != "FunctionDecl" else None, static)
         em.unit_names.add(cname)
         rng = node.get("range", {})
@@ -368,6 +369,8 @@ def translate(cfg, outdir):
         h.append("static inline %s* %s(%s v) { %s* p = (%s*)malloc(sizeof(%s)); __CPROVER_assume(p != 0); *p = v; return p; }"
                  % (et, cn, et, et, et, et))
     h.append("static inline void* vf_new_array(size_t n, size_t sz) { void* p = calloc(n, sz); __CPROVER_assume(p != 0); return p; }")
+    for cn, v in sorted(em.const_inits.items()):
+        h.append("enum { %s = %d }; /* const integral global of the real code, value read from its declaration */" % (cn, v))
     for cn, ct in sorted(em.globals.items()):
         h.append("extern %s %s;" % (ct, cn))
     news = []
